@@ -50,23 +50,7 @@ theorem redelivery_justified {conf : Conf} {c : Chan} (h : Reachable conf c)
     {h3 h2 h1 : List Ev} {k1 k2 id a1 a2 : Nat}
     (hs : c.hist = h3 ++ Ev.deliver k2 id a2 :: (h2 ++ Ev.deliver k1 id a1 :: h1)) :
     ∃ ev ∈ h2, releases ev id = true := by
-  have hok := (reachable_inv h).okh
-  rw [hs] at hok
-  have hok2 := okHist_append hok
-  have hev : okEv (h2 ++ Ev.deliver k1 id a1 :: h1) (Ev.deliver k2 id a2) = true := by
-    simp only [okHist, Bool.and_eq_true] at hok2; exact hok2.1
-  have hok3 : okHist (h2 ++ Ev.deliver k1 id a1 :: h1) = true := by
-    simp only [okHist, Bool.and_eq_true] at hok2; exact hok2.2
-  simp only [okEv, beq_iff_eq, Bool.and_eq_true] at hev
-  apply Classical.byContradiction
-  intro hno
-  have hnr : ∀ ev ∈ h2, releases ev id = false := by
-    intro ev hev'
-    cases hr : releases ev id
-    · rfl
-    · exact absurd ⟨ev, hev', hr⟩ hno
-  have hbase : status (Ev.deliver k1 id a1 :: h1) id = .held k1 := by simp [status, evSt]
-  rcases held_until_released hok3 hbase hnr with h' | h' <;> rw [h'] at hev <;> cases hev.1
+  exact hist_redelivery_justified (reachable_inv h).okh hs
 
 /-- … and that REQ was sent by — that timeout was of — the connection holding it then:
 an accepted FIN / REQ / TOUCH by `k`, or a timeout attributed to `k`, happens only while the
@@ -75,26 +59,14 @@ theorem answer_by_holder {conf : Conf} {c : Chan} (h : Reachable conf c) {h2 h1 
     (hs : c.hist = h2 ++ ev :: h1)
     (hev : ev = .finOk k id ∨ (∃ d, ev = .reqOk k id d) ∨ ev = .touchOk k id ∨ ev = .timeout id k) :
     lastDeliver h1 id = some k := by
-  have hok := (reachable_inv h).okh
-  rw [hs] at hok
-  have hok2 := okHist_append hok
-  simp only [okHist, Bool.and_eq_true] at hok2
-  apply held_is_last_deliver
-  rcases hev with rfl | ⟨d, rfl⟩ | rfl | rfl <;> simpa [okEv] using hok2.1
+  exact hist_answer_by_holder (reachable_inv h).okh hs hev
 
 /-- C02.4 — the n-th delivery of an id on the channel carries attempts n (as a natural number;
 the wire field is `wireAttempts n`, equal to n for n < 65536). -/
 theorem attempts_consecutive {conf : Conf} {c : Chan} (h : Reachable conf c) {h2 h1 : List Ev} {k id a : Nat}
     (hs : c.hist = h2 ++ Ev.deliver k id a :: h1) :
     a = nDeliver h1 id + 1 ∧ (a < 65536 → wireAttempts a = nDeliver h1 id + 1) := by
-  have hok := (reachable_inv h).okh
-  rw [hs] at hok
-  have hok2 := okHist_append hok
-  simp only [okHist, okEv, beq_iff_eq, Bool.and_eq_true] at hok2
-  refine ⟨hok2.1.2, fun hlt => ?_⟩
-  unfold wireAttempts
-  rw [Nat.mod_eq_of_lt hlt]
-  exact hok2.1.2
+  exact hist_attempts_consecutive (reachable_inv h).okh hs
 
 /-- F11: the 65 536-th delivery carries 0 on the wire — a limit of the frame format (`uint16`),
 stated rather than assumed away. -/
@@ -105,15 +77,7 @@ theorem attempts_wrap_example : wireAttempts (65535 + 1) = 0 := by decide
 theorem fin_final {conf : Conf} {c : Chan} (h : Reachable conf c) {h2 h1 : List Ev} {k id : Nat}
     (hs : c.hist = h2 ++ Ev.finOk k id :: h1) :
     ∀ ev ∈ h2, concerns ev id = false ∧ ∀ k' a, ev ≠ .deliver k' id a := by
-  have hok := (reachable_inv h).okh
-  rw [hs] at hok
-  have hg : status (Ev.finOk k id :: h1) id = .gone := by simp [status, evSt]
-  intro ev hev
-  have hnc := (gone_forever hok hg).2 ev hev
-  refine ⟨hnc, ?_⟩
-  intro k' a heq
-  subst heq
-  simp [concerns, evIds] at hnc
+  exact hist_fin_final (reachable_inv h).okh hs
 
 /-- does connection `k` hold message `id` in flight? -/
 def Holds (c : Chan) (k id : Nat) : Prop :=
@@ -165,11 +129,11 @@ example : exChan.hist = [.finOk 2 7, .deliver 2 7 2, .rdySet 2 2, .timeout 7 1, 
 example : exChan.msgs = [] ∧ exChan.messageCount = 1 ∧ exChan.timeoutCount = 1 := by decide
 example : (step exConf (run exConf {} (exOps.take 9)) (.fin 1 7)).2 = .err "E_FIN_FAILED" false := by decide
 /-- the invariant is not `True`: it rejects a state with one id in two places -/
-example : ¬ Inv 0 { msgs := [⟨1, 0, .queued⟩, ⟨1, 0, .deferred 5⟩] } := by
+example : ¬ Inv 0 { msgs := [{ id := 1, att := 0, loc := .queued }, { id := 1, att := 0, loc := .deferred 5 }] } := by
   intro h; have := h.core.nodup; simp at this
 example : ¬ Holds (run exConf {} (exOps.take 9)) 1 7 := by
   intro ⟨e, he, _, p, d, hl⟩
-  have : (run exConf {} (exOps.take 9)).msgs = [⟨7, 2, .inflight 2 (1100 + 60) 1100⟩] := by decide
+  have : (run exConf {} (exOps.take 9)).msgs = [{ id := 7, att := 2, loc := .inflight 2 (1100 + 60) 1100 }] := by decide
   rw [this] at he
   simp at he
   subst he
